@@ -19,8 +19,8 @@ from collections import Counter
 
 from . import env
 
-EVIDENCE_DIR = os.path.join(env.VERIF_DIR, "evidence")
-REPLAY_DIR = os.path.join(env.VERIF_DIR, "replays")
+EVIDENCE_DIR = os.environ.get("VERIF_EVIDENCE_DIR") or os.path.join(env.VERIF_DIR, "evidence")
+REPLAY_DIR = os.path.join(os.environ.get("VERIF_EVIDENCE_DIR") or env.VERIF_DIR, "replays")
 KNOWN_FILE = os.path.join(env.VERIF_DIR, "known_findings.json")
 SCHEMA_FILE = os.path.join(env.VERIF_DIR, "schemas", "EVIDENCE.schema.json")
 
@@ -379,7 +379,7 @@ def run_property(prop_id, tier, seed=None, replay=None):
         "rule": mod.RULE,
         "samples": samples if samples else ["(no non-trivial sample recorded)"],
         "exhaustive": bool(extra.pop("exhaustive", False)) and not budget_exhausted,
-        "classes": dict(sorted(classes.items(), key=lambda kv: (-kv[1], kv[0]))[:80]),
+        "classes": dict(sorted(classes.items(), key=lambda kv: (-kv[1], kv[0]))[:300]),
         "counters": dict(sorted(counters.items())),
         "budget_exhausted": budget_exhausted,
         "shards": len(shards),
